@@ -42,3 +42,10 @@ impl<H> BuildHasherDefault<H> {
 pub uninterp spec fn murmur3_u64_spec(v: u64, seed: u32) -> u32;
 #[verifier::external_body]
 pub fn vx_murmur3_32_u64(v: u64, seed: u32) -> (r: u32) ensures r == murmur3_u64_spec(v, seed) { unimplemented!() }
+
+// std: `impl<T: Hash> Hash for &T` forwards to T, so hashing a reference is hashing the referent (assumed, documented std behaviour)
+pub mod vx_hash_ax {
+    use vstd::prelude::*;
+    use super::*;
+    pub broadcast axiom fn hash_ref<H, X>(x: X) ensures #[trigger] hash_spec::<H, &X>(&x) == hash_spec::<H, X>(x);
+}
